@@ -30,10 +30,12 @@ RTOL = 1e-9
 
 MECH_A = "correct-memo-key-drops-nested-option-values"
 MECH_B = "trajectory-attribute-not-updated-when-propagate-served-from-memo"
-MECH_C = "correct-memo-returned-after-period-change-without-reapplying"
+MECH_C = "correct-memo-served-although-orbit-state-changed-since-it-was-made"
 MECH_D = "cm-hamiltonian-degree-switch-skipped-on-memo-hit"
 MECH_E = "get-center-manifold-returns-memo-whose-degree-was-changed"
 MECH_G = "stability-memo-entries-alias-one-mutable-pipeline"
+MECH_H = "manifold-memo-not-invalidated-when-generating-orbit-changes"
+MECH_I = "manifold-result-attribute-not-updated-when-compute-served-from-memo"
 
 MU_B = 0.05
 AMPS = (0.01, 0.02, 0.03)
@@ -208,8 +210,8 @@ class OrbitFamily:
                     creator = self.ops[steps[j].op]
                     if creator.kind == "correct" and creator.arg != op.arg:
                         return k, MECH_A          # entry created for other option values served for these
-                    if creator.arg == op.arg and any(self.ops[steps[i].op].kind == "set_period" for i in range(j + 1, k)):
-                        return k, MECH_C          # same options, but the orbit was modified since and is not re-corrected
+                    if creator.arg == op.arg and k >= 1 and steps[k - 1].fp_real[:2] != steps[j].fp_real[:2]:
+                        return k, MECH_C          # same options, but (initial_state, period) changed since: neither re-run nor re-applied
         if op.kind == "propagate" and steps[k].own_hit and self.ops[steps[n].op].kind == "trajectory" and n > k:
             last_exec = next((i for i in range(k - 1, -1, -1) if self.ops[steps[i].op].kind == "propagate"
                               and any(t == "propagate" and not h for (t, h, _) in steps[i].events)), None)
@@ -218,6 +220,124 @@ class OrbitFamily:
                     and tw.compare(steps[n].real, steps[last_exec].real, 0.0)[0]
                     and tw.compare(steps[n].twin, steps[k].real, RTOL)[0]):
                 return k, MECH_B                  # attribute still holds the previously *executed* propagation
+        return k, None
+
+
+
+# =============================================================================== Manifold
+MTAG = "adaptive"           # compute_manifold's key has no tag of its own; its first string is the integration method
+STAG = "<untagged:4>"       # compute_stability's key of a libration point: (id(point), option items)
+
+
+class ManifoldFamily:
+    """Unstable (thorough: also stable) manifold of a corrected Lyapunov orbit; the generating orbit is part of the state."""
+    name = "manifold"
+    ARGS = {"A": dict(step=0.25, integration_fraction=0.2), "B": dict(step=0.5, integration_fraction=0.2),
+            "C": dict(step=0.25, integration_fraction=0.3)}
+
+    def __init__(self, env, orbit_family):
+        self.env, self.of = env, orbit_family
+        self.ops = {}
+        for v in self.ARGS:
+            self._add(Op(f"m.compute_{v}", self._compute(v), mutates=True, memo_tag=MTAG, kind="m_compute", arg=v))
+        self._add(Op("m.trajectories", lambda h: self._trajs(h["m"].trajectories), kind="m_read"))
+        self._add(Op("m.result", lambda h: self._res(h["m"].result), kind="m_read"))
+        self._add(Op("o.set_period_half", orbit_family.ops["set_period_half"].fn, mutates=True, kind="o_mut"))
+        self._add(Op("o.set_period_P", orbit_family.ops["set_period_P"].fn, mutates=True, kind="o_mut"))
+        self._add(Op("o.correct_D", orbit_family.ops["correct_D"].fn, mutates=True, memo_tag="correct", kind="o_mut"))
+        self._add(Op("o.period", orbit_family.ops["period"].fn))
+        self._add(Op("m.saveload", self._saveload, twin_fn=lambda h: "reloaded", kind="saveload"))
+
+    def _add(self, op):
+        self.ops[op.name] = op
+
+    @staticmethod
+    def _trajs(tl):
+        return None if tl is None else tuple(_traj(t) for t in tl)
+
+    @staticmethod
+    def _res(r):
+        if r is None:
+            return None
+        ysos, dysos, states, times, n_ok, n_all = r
+        return {"ysos": tuple(np.array(a) for a in ysos), "dysos": tuple(np.array(a) for a in dysos),
+                "states": tuple(np.array(a) for a in states), "times": tuple(np.array(a) for a in times),
+                "n_success": int(n_ok), "n_total": int(n_all)}
+
+    def _compute(self, v):
+        return lambda h: self._res(h["m"].compute(show_progress=False, **self.ARGS[v]))
+
+    def _saveload(self, h):
+        p = self.env.path("manifold")
+        h["m"].save(p)
+        h["m"] = type(h["m"]).load(p)
+        h["o"] = h["m"].generating_orbit
+        os.remove(p)
+        return "reloaded"
+
+    def fresh(self, params, twin):
+        h = self.of.fresh({"A": params["A"], "start": "ref"}, twin)
+        h["o"].correct()
+        h["m"] = h["o"].manifold(stable=params.get("stable", False), direction="positive")
+        return h
+
+    def dispose(self, h):
+        h.clear()
+
+    def params_key(self, params):
+        return (params["A"], params.get("stable", False))
+
+    def clear_twin_memos(self, h):
+        self.of.clear_twin_memos(h)
+        h["m"].dynamics._generator = None
+
+    def fingerprint(self, h):
+        r = h["m"].dynamics._manifold_result
+        rs = None
+        if r is not None:
+            st = r[2]
+            rs = (len(st), int(r[4]), int(r[5])) + ((len(st[0]), tuple(map(float, np.asarray(st[0])[-1]))) if len(st) else ())
+        return self.of.fingerprint(h)[:2] + (rs,)
+
+    def fp_equal(self, a, b):
+        return tw.compare(a, b, RTOL)[0]
+
+    def nontrivial(self, history):
+        seen = False
+        for n in history:
+            op = self.ops[n]
+            if seen and (not op.mutates or op.kind == "m_compute"):
+                return True
+            seen = seen or op.mutates or op.kind == "saveload"
+        return False
+
+    def classify(self, res):
+        steps, n = res["steps"], res["mismatch"]
+        k = tw.first_divergence(self, steps, n, RTOL)
+        op = self.ops[steps[k].op]
+        if op.kind != "m_compute":
+            return k, None
+
+        def orbit_state_before(i):
+            return (steps[i - 1].fp_real if i >= 1 else res["fp0"])[:2]
+        if n == k:
+            # some memo of the manifold service (result, STM, stability) served at this step was computed while the
+            # generating orbit had another (initial_state, period)
+            for (t, h, key) in steps[k].events:
+                if not (h and t in (MTAG, "<untagged:4>", "<untagged:5>")):
+                    continue
+                j = next((i for i in range(k) if not isinstance(steps[i].real, tw.Exc) for (t2, h2, key2) in steps[i].events
+                          if t2 == t and not h2 and key2 == key), None)
+                if j is not None and orbit_state_before(j) != orbit_state_before(k):
+                    return k, MECH_H
+            return k, None
+        if not steps[k].own_hit:
+            return k, None
+        if n > k and self.ops[steps[n].op].kind == "m_read":
+            last_exec = next((i for i in range(k - 1, -1, -1) if self.ops[steps[i].op].kind == "m_compute"
+                              and any(t == MTAG and not h for (t, h, _) in steps[i].events)), None)
+            if last_exec is not None and self.ops[steps[last_exec].op].arg != op.arg:
+                return k, MECH_I                  # attribute still holds the previously *executed* computation
         return k, None
 
 
@@ -239,10 +359,10 @@ class PointFamily:
             self._add(Op(f"{p}.normal_form_transform", lambda h, p=p: tuple(np.array(m) for m in h[p].normal_form_transform),
                          memo_tag="normal_form_transform"))
             self._add(Op(f"{p}.eigenvalues", lambda h, p=p: tuple(np.array(e) for e in h[p].eigenvalues),
-                         memo_tag="<untagged>", kind="stability", arg="D"))
-            self._add(Op(f"{p}.is_stable", lambda h, p=p: bool(h[p].is_stable), memo_tag="<untagged>", kind="stability", arg="D"))
+                         memo_tag=STAG, kind="stability", arg="D"))
+            self._add(Op(f"{p}.is_stable", lambda h, p=p: bool(h[p].is_stable), memo_tag=STAG, kind="stability", arg="D"))
             for v in ("D", "B"):
-                self._add(Op(f"{p}.compute_stability_{v}", self._stab(p, v), memo_tag="<untagged>", kind="stability", arg=v))
+                self._add(Op(f"{p}.compute_stability_{v}", self._stab(p, v), memo_tag=STAG, kind="stability", arg=v))
         for p in ("pa", "pc"):
             self._add(Op(f"{p}.gamma", lambda h, p=p: float(h[p].dynamics.gamma), memo_tag="gamma"))
             for n in (2, 3):
@@ -320,7 +440,7 @@ class PointFamily:
             return n, MECH_E
         if op.kind == "stability" and s.own_hit:
             last_exec = next((i for i in range(n - 1, -1, -1) if steps[i].op[:2] == p and self.ops[steps[i].op].kind == "stability"
-                              and any(t == "<untagged>" and not h for (t, h, _) in steps[i].events)), None)
+                              and any(t == STAG and not h for (t, h, _) in steps[i].events)), None)
             if last_exec is not None and self.ops[steps[last_exec].op].arg != op.arg:
                 def eig_part(o):
                     return o["eigenvalues"] if isinstance(o, dict) else o
@@ -664,6 +784,31 @@ def cm_workload(ctx, ex, env):
         ex.run(fam, {"d1": 4 if i % 2 == 0 else 3, "d2": 3 if i % 4 < 2 else 4}, h, cls)
 
 
+
+def manifold_workload(ctx, ex, env):
+    fam = ManifoldFamily(env, OrbitFamily(env))
+    rng = ctx.rng
+    work = []
+    L = ctx.pick(3, 4)
+    for h in exhaustive(["m.compute_A", "m.compute_B", "m.trajectories", "o.set_period_half", "o.correct_D"], L):
+        work.append(("exhaustive", h))
+    for h in exhaustive(["m.compute_A", "m.compute_B", "m.trajectories"], 4):
+        work.append(("exhaustive", h))
+    letters = [n for n in fam.ops if n != "m.saveload"]
+    for _ in range(ctx.pick(12, 200)):
+        work.append(("walk", walk(rng, letters, None, 8, 15)))
+    work.append(("saveload", ("m.compute_A", "m.saveload", "m.trajectories", "m.result", "o.period")))
+    work.append(("saveload", ("m.saveload", "m.trajectories", "o.period", "m.result")))
+    seen = set()
+    for i, (cls, h) in enumerate(work):
+        if (cls, h) in seen:
+            continue
+        seen.add((cls, h))
+        if not ctx.mine(i):
+            continue
+        ex.run(fam, {"A": AMPS[i % 3], "stable": (not ctx.quick) and i % 5 == 0}, h, cls)
+
+
 def system_workload(ctx, ex, env):
     fam = SystemFamily(env)
     rng = ctx.rng
@@ -785,6 +930,10 @@ def system_flow_reference(ctx, env):
 # =============================================================================== entry points
 def _setup(ctx):
     import hiten  # noqa: F401
+    import numba
+    # the polynomial kernels of the degree-3..5 normal forms open thousands of tiny parallel regions; with the
+    # passive OpenMP wait policy of ./check every region costs a futex wake-up (measured: 12 min of system time)
+    numba.set_num_threads(1)
     spy = tw.CacheSpy()
     spy.install()
     env = Env(ctx, spy)
@@ -803,7 +952,8 @@ def run(ctx):
     walls = {}
     try:
         for label, fn, args in (("orbit", orbit_workload, (ctx, ex, env)), ("point", point_workload, (ctx, ex, env)),
-                                ("cm", cm_workload, (ctx, ex, env)), ("system", system_workload, (ctx, ex, env)),
+                                ("cm", cm_workload, (ctx, ex, env)), ("manifold", manifold_workload, (ctx, ex, env)),
+                                ("system", system_workload, (ctx, ex, env)),
                                 ("system_flow_reference", system_flow_reference, (ctx, env)), ("id_reuse", id_reuse, (ctx, ex, env))):
             if only and label not in only:
                 continue
@@ -829,7 +979,7 @@ def run(ctx):
     ctx.require("nontrivial_histories", 25 * m)
     ctx.require("steps_served_from_their_own_memo", 50 * m)
     ctx.require("histories_with_a_step_served_from_memo", 25 * m)
-    for f in ("orbit", "point", "cm", "system"):
+    for f in ("orbit", "point", "cm", "manifold", "system"):
         ctx.require(f"{f}: value on long-lived object == value on cache-free twin", 20 * m)
 
 
@@ -838,7 +988,8 @@ def replay(ctx, w):
     wit = w.get("witness") or {}
     spy, env, ex = _setup(ctx)
     try:
-        fams = {"orbit": OrbitFamily, "point": PointFamily, "cm": CMFamily, "system": SystemFamily}
+        fams = {"orbit": OrbitFamily, "point": PointFamily, "cm": CMFamily, "system": SystemFamily,
+                "manifold": lambda e: ManifoldFamily(e, OrbitFamily(e))}
         fam = fams[wit["family"]](env)
         ex.run(fam, wit.get("params") or {}, tuple(wit["history"]), "replay")
     finally:
